@@ -9,7 +9,7 @@ Set Default Timeout 200.
 Definition dec_compat (id : Z) (t : gty) : Prop :=
   if is_text id then match t with YStr _ | YBytes _ => True | _ => False end
   else if id =? Id.boolean then match t with YBool _ => True | _ => False end
-  else if is_intfam id then match t with YInt _ _ | YDur => True | YBig => is_wide id = true | _ => False end
+  else if is_intfam id then match t with YInt _ _ | YDur | YStr false => True | YBig => is_wide id = true | _ => False end
   else if id =? Id.float then match t with YF32 _ => True | _ => False end
   else if id =? Id.double then match t with YF64 _ => True | _ => False end
   else if id =? Id.decimal then t = YDec
@@ -38,6 +38,53 @@ Definition dec_clean (id : Z) (x : cqlval) (t : gty) : Prop :=
 
 Lemma land_mask x k : 0 <= k -> 0 <= x < 2 ^ k -> Z.land x (2 ^ k - 1) = x.
 Proof. intros Hk Hx. rewrite land_ones_mod by lia. apply Z.mod_small. lia. Qed.
+
+(* ---- strconv.FormatInt read back by the decimal notation: every int64 ----------------------------------------- *)
+Lemma dec_digits_app l1 : forall l2 a, dec_digits (l1 ++ l2) a =
+  match dec_digits l1 a with Some a' => dec_digits l2 a' | None => None end.
+Proof.
+  induction l1 as [|c r IH]; intros l2 a; cbn [app dec_digits]; [reflexivity|].
+  destruct ((48 <=? c) && (c <=? 57)); [apply IH | reflexivity].
+Qed.
+
+Lemma digits_fuel_acc n : forall z acc, digits_fuel n z acc = digits_fuel n z [] ++ acc.
+Proof.
+  induction n as [|n IH]; intros z acc; cbn [digits_fuel]; [reflexivity|].
+  destruct (z <? 10); [reflexivity|]. rewrite IH, (IH _ [_]), <- app_assoc. reflexivity.
+Qed.
+
+Lemma digits_fuel_value n : forall z, 0 <= z < 10 ^ Z.of_nat n -> (1 <= n)%nat ->
+  dec_digits (digits_fuel n z []) 0 = Some z /\ exists c r, digits_fuel n z [] = c :: r /\ 48 <= c <= 57.
+Proof.
+  induction n as [|n IH]; intros z Hz Hn; [lia|]. cbn [digits_fuel].
+  destruct (Z.ltb_spec z 10) as [Hlt|Hge].
+  - split; [|exists (48 + z), []; split; [reflexivity|lia]]. cbn [dec_digits].
+    replace ((48 <=? 48 + z) && (48 + z <=? 57)) with true by (symmetry; apply Bool.andb_true_iff; split; apply Z.leb_le; lia).
+    f_equal. lia.
+  - rewrite Nat2Z.inj_succ, Z.pow_succ_r in Hz by lia.
+    assert (Hn' : (1 <= n)%nat) by (destruct n; [cbn in Hz; lia | lia]).
+    destruct (IH (z / 10) ltac:(split; [apply Z.div_pos; lia | apply Z.div_lt_upper_bound; lia]) Hn') as [Hv [c [r [Hc Hr]]]].
+    rewrite digits_fuel_acc. split.
+    + rewrite dec_digits_app, Hv. cbn [dec_digits].
+      replace ((48 <=? 48 + z mod 10) && (48 + z mod 10 <=? 57)) with true by (symmetry; apply Bool.andb_true_iff; split; apply Z.leb_le; lia).
+      f_equal. lia.
+    + rewrite Hc. exists c, (r ++ [48 + z mod 10]). split; [reflexivity|exact Hr].
+Qed.
+
+Lemma decimal_value_digit c r : 48 <= c <= 57 -> decimal_value (c :: r) = dec_digits (c :: r) 0.
+Proof.
+  intros Hc. unfold decimal_value. destruct c as [|p|p]; try lia.
+  do 6 (destruct p as [p|p|]; try reflexivity); lia.
+Qed.
+
+Lemma format_int_value v : - 2 ^ 63 <= v < 2 ^ 63 -> decimal_value (format_int v) = Some v.
+Proof.
+  intros Hv. unfold format_int. destruct (Z.ltb_spec v 0).
+  - destruct (digits_fuel_value 20 (- v) ltac:(change (10 ^ Z.of_nat 20) with 100000000000000000000; pow_consts; lia) ltac:(lia)) as [Hd [c [r [Hc Hr]]]].
+    rewrite Hc in *. unfold decimal_value. cbn [tl]. rewrite Hd. cbn. f_equal. lia.
+  - destruct (digits_fuel_value 20 v ltac:(change (10 ^ Z.of_nat 20) with 100000000000000000000; pow_consts; lia) ltac:(lia)) as [Hd [c [r [Hc Hr]]]].
+    rewrite Hc in *. rewrite decimal_value_digit by exact Hr. exact Hd.
+Qed.
 
 Lemma land255 x : Z.land x 255 = x mod 256.
 Proof. change 255 with (2 ^ 8 - 1). rewrite land_ones_mod by lia. reflexivity. Qed.
@@ -80,6 +127,9 @@ Qed.
 Ltac ids := unfold Id.ascii, Id.bigint, Id.blob, Id.boolean, Id.counter, Id.decimal, Id.double, Id.float, Id.int, Id.text, Id.timestamp,
     Id.uuid, Id.varchar, Id.varint, Id.timeuuid, Id.inet, Id.date, Id.time, Id.smallint, Id.tinyint, Id.duration in *.
 
+Lemma fits_signed_le (w w' : nat) z : (w <= w')%nat -> fits_signed w z = true -> fits_signed w' z = true.
+Proof. induction 1; [auto|]. intros H0. apply fits_signed_mono. auto. Qed.
+
 (* fixed-width integer columns *)
 Lemma unmarshal_fixed_int id (w : nat) dec x b t g :
   In (id, w) [(Id.tinyint, 1%nat); (Id.smallint, 2%nat); (Id.int, 4%nat); (Id.bigint, 8%nat); (Id.counter, 8%nat)] ->
@@ -104,8 +154,11 @@ Proof.
   - (* integer target *)
     cbn [dec_clean] in Hcl. destruct (intlike_int id z k) as [r| | |] eqn:Er; try discriminate. cbn [rmap rbind] in Hu. injection Hu as <-.
     rewrite (intlike_int_spec id z k r Hfam Hne Hcl Hnv Er). reflexivity.
-  - destruct named; [discriminate|]. exfalso. unfold dec_compat in Hc.
-    cbn in Hin. repeat (destruct Hin as [Hin|Hin]; [injection Hin as <- _; exact Hc|]). contradiction.
+  - (* string: strconv.FormatInt, read back as a decimal number *)
+    destruct named; [discriminate|]. injection Hu as <-. cbn [denote_int]. rewrite format_int_value; [reflexivity|].
+    assert (Hf8 : fits_signed 8 z = true).
+    { cbn in Hin. repeat (destruct Hin as [Hin|Hin]; [injection Hin as _ <-; apply (fits_signed_le _ 8 z) in Hf; [exact Hf | lia]|]). contradiction. }
+    apply fits_signed_iff in Hf8. cbn in Hf8. pow_consts. lia.
   - (* big.Int *)
     injection Hu as <-. destruct w as [|w']; [lia|]. rewrite dec_bigint2c_be_fixed by exact Hf.
     unfold dec_compat in Hc. cbn in Hin. cbn [denote_int].
@@ -207,6 +260,12 @@ Proof.
       { rewrite be_fixed_length. replace (w =? 9)%nat with false by (symmetry; apply Nat.eqb_neq; exact Hw9).
         destruct (be_fixed w z) as [|[|p|p] r]; reflexivity. }
       rewrite Hsp in Hu. destruct (8 <? length (be_fixed w z))%nat eqn:E8; [discriminate | exact (Hgen eq_refl Hu)].
+  - (* string *)
+    destruct named; [exfalso; exact Hc|].
+    destruct (8 <? length (be_fixed w z))%nat eqn:E8; [discriminate|]. rewrite be_fixed_length in E8. apply Nat.ltb_ge in E8.
+    rewrite (varint_value w z) in Hu by (try lia; exact Hf). cbn [unmarshal_intlike] in Hu. injection Hu as <-. cbn [denote_int].
+    rewrite format_int_value; [reflexivity|].
+    assert (Hf8 : fits_signed 8 z = true) by (apply size2c_le; lia). apply fits_signed_iff in Hf8. cbn in Hf8. pow_consts. lia.
   - (* big.Int *)
     cbn [unmarshal_intlike] in Hu. injection Hu as <-. destruct w as [|w']; [lia|]. rewrite dec_bigint2c_be_fixed by exact Hf. reflexivity.
   - (* time.Duration *)
